@@ -31,7 +31,7 @@
   The proofs are in `Proofs/Rewrite.lean`.
 -/
 import Ctrmml.Proofs.Rewrite
-import Ctrmml.Proofs.OptSteps
+import Ctrmml.Proofs.OptPass
 namespace Ctrmml.C01
 open Ctrmml Ctrmml.Tree Ctrmml.Expand Ctrmml.Rewrite Tables
 
@@ -694,5 +694,151 @@ theorem applyMatch_loop_is_step {song : Song} {m : SAMap} {bm : Match} {subId : 
     · rename_i h
       simp only [h, if_false]
       exact ⟨evs, he, ERel.refl _ _ _⟩
+
+/-! ## passes of `Opt.optimize` that fold loops -/
+
+/-- the `Song_Validator` run after every pass rejects (at least) songs one of whose tracks runs
+out of stack frames -/
+def ValidOK (valid : Song → Bool) : Prop :=
+  ∀ s, valid s = true → ∀ id t, s.track? id = some t → perf s t ≠ .error .depth
+
+/-- the validator of the property: every track of the song validates -/
+def validAll (s : Song) : Bool :=
+  s.tracks.all fun p => match perf s p.2 with | .ok _ => true | .error _ => false
+
+theorem validAll_ok {s : Song} (h : validAll s = true) {id : Nat} {t : List Event} (ht : s.track? id = some t) :
+    ∃ items, perf s t = .ok items := by
+  have := List.all_eq_true.1 h (id, t) (mem_of_lookup ht)
+  simp only at this
+  split at this
+  · rename_i x hx; exact ⟨x, hx⟩
+  · simp at this
+
+theorem validAll_validOK : ValidOK validAll := by
+  intro s h id t ht
+  obtain ⟨x, hx⟩ := validAll_ok h ht
+  rw [hx]; simp
+
+/-- **One pass of `find_best_match` that takes the loop branch** (or finds nothing) is a loop
+fold up to `LOOP_BREAK` params, and keeps the song well formed. -/
+theorem pass_loop_is_step {song : Song} {m : SAMap} {subId : Int} {s' : Song} {best : Match} {subId' : Int}
+    (hwf : SongWF song) (hfb : findBestMatch song m subId = .ok (s', best, subId'))
+    (hl : ¬ best.loopScore < best.subScore) :
+    (s' = song ∨ StepN song s') ∧ SongWF s' ∧ subId' = subId := by
+  rcases findBestMatch_spec hfb with ⟨_, h1, h2⟩ | ⟨_, ⟨srcT, srcPos, hfm⟩, m', happ⟩
+  · exact ⟨Or.inl h1, h1 ▸ hwf, h2⟩
+  · obtain ⟨_, _, hss, hlo⟩ := findMatch_spec hwf.nodup hfm
+    have hne : best.loopLength ≠ 0 := by
+      unfold Match.loopScore at hl
+      omega
+    have hok := hlo hne
+    obtain ⟨len0, hf⟩ := hok.fml
+    obtain ⟨src, _, hsrc, _, _⟩ := findMatchLength_spec hf
+    obtain ⟨w1, w2, w3⟩ := hwf.track hsrc
+    have hw := hok.window hsrc w2
+    have hrep := repeats_small hok.lt hw.len w3
+    obtain ⟨S', happ', hstep, hS'⟩ := applyMatch_loop_is_step (subId := subId) hok hl hsrc w1 w2 hrep
+    rw [happ'] at happ
+    simp only [Except.ok.injEq, Prod.mk.injEq] at happ
+    obtain ⟨rfl, _, rfl⟩ := happ
+    refine ⟨Or.inr hstep, ?_, rfl⟩
+    rw [hS']
+    have hL : 3 ≤ best.loopLength := by have := hok.minLen; rw [minLoopScore_eq] at this; exact this
+    obtain ⟨f1, f2, f3⟩ := foldedTrack_wf hok.lt hw.len hL hrep w1 w2
+    exact hwf.setTrack hsrc f1 f2 (by omega)
+
+theorem optimize_passes_prefix (valid : Song → Bool) (minScore : Int) :
+    ∀ (fuel : Nat) (song : Song) (subId : Int) (acc : List Match) (r : OptResult),
+    optimize valid minScore fuel song subId acc = .ok r → ∃ ps, r.passes = acc ++ ps := by
+  intro fuel
+  induction fuel with
+  | zero => intro song subId acc r h; simp [optimize] at h
+  | succ fuel ih =>
+    intro song subId acc r h
+    unfold optimize at h
+    obtain ⟨m, _, h⟩ := bind_ok h
+    obtain ⟨x, _, h⟩ := bind_ok h
+    obtain ⟨s', best, subId'⟩ := x
+    simp only at h
+    split at h
+    · simp only [pure, Except.pure, Except.ok.injEq] at h
+      exact ⟨[best], by rw [← h]⟩
+    · split at h
+      · obtain ⟨ps, hps⟩ := ih _ _ _ _ h
+        exact ⟨best :: ps, by rw [hps]; simp⟩
+      · simp only [pure, Except.pure, Except.ok.injEq] at h
+        exact ⟨[best], by rw [← h]⟩
+
+/-- a run of `Opt.optimize` all of whose passes take the loop branch is a chain of loop folds
+(up to `LOOP_BREAK` params) through songs that the validator accepts -/
+theorem optimize_loop_chain (valid : Song → Bool) (minScore : Int) :
+    ∀ (fuel : Nat) (song : Song) (subId : Int) (acc : List Match) (r : OptResult),
+    SongWF song → optimize valid minScore fuel song subId acc = .ok r → r.validated = true →
+    (∀ bm ∈ r.passes.drop acc.length, ¬ bm.loopScore < bm.subScore) →
+    ∃ l, chainN song l ∧ lastSong song l = r.song ∧ (∀ T ∈ l, valid T = true) ∧ SongWF r.song := by
+  intro fuel
+  induction fuel with
+  | zero => intro song subId acc r _ h; simp [optimize] at h
+  | succ fuel ih =>
+    intro song subId acc r hwf h hv hloop
+    obtain ⟨ps, hps⟩ := optimize_passes_prefix valid minScore _ _ _ _ _ h
+    unfold optimize at h
+    obtain ⟨m, _, h⟩ := bind_ok h
+    obtain ⟨x, hfb, h⟩ := bind_ok h
+    obtain ⟨s', best, subId'⟩ := x
+    simp only at h
+    split at h
+    · simp only [pure, Except.pure, Except.ok.injEq] at h
+      rw [← h] at hv; simp at hv
+    · rename_i hval
+      have hval' : valid s' = true := by simpa using hval
+      -- `best` is the first pass after `acc`
+      have hbest : ¬ best.loopScore < best.subScore := by
+        apply hloop
+        split at h
+        · obtain ⟨ps', hps'⟩ := optimize_passes_prefix valid minScore _ _ _ _ _ h
+          rw [hps']; simp
+        · simp only [pure, Except.pure, Except.ok.injEq] at h
+          rw [← h]; simp
+      obtain ⟨hstep, hwf', _⟩ := pass_loop_is_step hwf hfb hbest
+      split at h
+      · obtain ⟨l, hc, hlast, hall, hwfr⟩ := ih s' subId' (acc ++ [best]) r hwf' h hv (by
+          intro bm hbm
+          apply hloop
+          have : List.drop (acc ++ [best]).length r.passes = List.drop 1 (List.drop acc.length r.passes) := by
+            rw [List.drop_drop]; simp
+          rw [this] at hbm
+          exact List.mem_of_mem_drop hbm)
+        rcases hstep with rfl | hstep
+        · exact ⟨l, hc, hlast, hall, hwfr⟩
+        · refine ⟨s' :: l, ⟨hstep, hc⟩, hlast, ?_, hwfr⟩
+          intro T hT
+          rcases List.mem_cons.1 hT with rfl | hT
+          · exact hval'
+          · exact hall T hT
+      · simp only [pure, Except.pure, Except.ok.injEq] at h
+        subst h
+        rcases hstep with rfl | hstep
+        · exact ⟨[], trivial, rfl, by simp, hwf'⟩
+        · exact ⟨[s'], ⟨hstep, trivial⟩, rfl, by simpa using hval', hwf'⟩
+
+/-- **C01 for runs of the optimiser that only fold loops** (`_partial`: the extra hypothesis is
+`hloop`, every pass took the loop branch of `apply_match`).  For every well-formed song (distinct
+track ids, no explicit `END` event, `LOOP_BREAK`s without duration, tracks shorter than 32767
+events) all of whose tracks validate, every threshold `minScore` and every fuel: if
+`Opt.optimize` with the validator "every track validates" returns normally with
+`validated = true`, then every original track still validates in the optimised song and is
+observed the same (what is played with durations, total length, loop-point time). -/
+theorem C01_optimize_preserves_partial (song : Song) (minScore : Int) (fuel : Nat) (r : OptResult)
+    (hwf : SongWF song) (hok : ∀ id, song.track? id ≠ none → okTrack song id)
+    (hr : optimize validAll minScore fuel song (initialSubId song) [] = .ok r) (hv : r.validated = true)
+    (hloop : ∀ bm ∈ r.passes, ¬ bm.loopScore < bm.subScore)
+    (id : Nat) (hid : song.track? id ≠ none) :
+    okTrack r.song id ∧ obsOf r.song id = obsOf song id := by
+  obtain ⟨l, hc, hlast, hall, _⟩ := optimize_loop_chain validAll minScore fuel song _ [] r hwf hr hv
+    (by simpa using hloop)
+  rw [← hlast]
+  exact C01_passesN_preserve_nodepth song l hc id (hok id hid)
+    (fun T hT t' ht' => validAll_validOK T (hall T hT) id t' ht')
 
 end Ctrmml.C01
